@@ -279,7 +279,7 @@ def case_rhs_spec(EoN, p):
     if th == 'gamma0_homogeneous_meanfield':
         X = fl(a['X']); c = q(a['c'])
         x = A._dSIS_homogeneous_meanfield_(X, 0, c, tau, 0.0); y = A._dSIR_homogeneous_meanfield_(X, 0, c, tau, 0.0)
-        return None if cl(x, y) else 'gamma=0: SIS rhs %s, SIR rhs %s' % (list(x), list(y))
+        return None if cl(x, y) else 'gamma=0: SIS rhs %s, SIR rhs %s' % ([float(v) for v in x], [float(v) for v in y])
     if th == 'gamma0_homogeneous_pairwise':
         S, I, SI, SS = fl(a['X']); N = q(a['N']); n = q(a['n'])
         x = A._dSIS_homogeneous_pairwise_(np.array([S, SI, SS]), 0, N, n, tau, 0.0)
@@ -290,7 +290,7 @@ def case_rhs_spec(EoN, p):
         x = A._dSIS_compact_pairwise_(np.concatenate((Sk, [q(a['SI']), q(a['SS'])])), 0, Nk, q(a['twoM']), tau, 0.0)
         y = A._dSIR_compact_pairwise_(np.concatenate((Sk, [q(a['SS']), q(a['SI']), q(a['R'])])), 0, q(a['N']), tau, 0.0)
         ok = cl(x[:-2], y[:-3]) and cl(x[-2], y[-2]) and cl(x[-1], y[-3])
-        return None if ok else 'gamma=0: SIS compact pairwise (dSk,dSI,dSS)=%s, SIR (dSk,dSS,dSI,dR)=%s' % (list(x), list(y))
+        return None if ok else 'gamma=0: SIS compact pairwise (dSk,dSI,dSS)=%s, SIR (dSk,dSS,dSI,dR)=%s' % ([float(v) for v in x], [float(v) for v in y])
     if th == 'attack_cts_dtheta':
         theta = q(a['theta']); R = q(a['R']); N = q(a['N']); phiS0 = q(a['phiS0']); phiR0 = q(a['phiR0'])
         ps, psP = O_poly(a['ps']), O_poly(a['psP'])
